@@ -15,7 +15,9 @@ import vlib
 
 def run(ctx):
     ctx.level = "model_checking"
-    ctx.rule = ("cases = all 3528 configurations of OCSP.tla: 288 impersonation configurations (impostor signers {self-signed, delegated by another CA, wrong issuer} whose certificate copies the issuer's subject DN / key identifiers / serial / all of them, x issuer given/nil x self-signed/intermediate x cert argument x {none, tbs}; always in all four PKI flavours) and 3240 base configurations (9 signer configurations x {byName, byKey} x {good, revoked, unknown} x issuer {given, nil} x "
+    ctx.rule = ("cases = all 2496 configurations of OCSPCerts.tla (every sequence of 0..3 embedded certificates over {issuer's own, delegated, another issuer-signed certificate, attacker self-signed, "
+                "attacker certified by another CA} x response signed by issuer/delegated/that other subject/attacker x issuer given/nil x {unmodified, tbs modified}; spliced into real DER, all four PKI flavours) "
+                "and all 3528 configurations of OCSP.tla: 288 impersonation configurations (impostor signers {self-signed, delegated by another CA, wrong issuer} whose certificate copies the issuer's subject DN / key identifiers / serial / all of them, x issuer given/nil x self-signed/intermediate x cert argument x {none, tbs}; always in all four PKI flavours) and 3240 base configurations (9 signer configurations x {byName, byKey} x {good, revoked, unknown} x issuer {given, nil} x "
                 "issuer {self-signed root, intermediate} x cert argument {nil, matching serial, other serial} x region {none, tbsResponseData, signature, "
                 "embedded certificate, outer wrapper}); each is materialised in one (quick) / all four (thorough) PKI flavours (RSA-2048; ECDSA P-256; RSA issuer "
                 "+ P-384 responder; P-521 issuer + RSA responder) with rotating template fields (10 revocation reasons, with/without NextUpdate, 0..2 extensions, "
@@ -44,16 +46,23 @@ def run(ctx):
         raise vlib.Infra("OCSP generator produced nothing")
     ctx.log("OCSP: %d configurations (%d accept, %d reject, %d unpredicted)" % (
         len(r.traces), sum(t["d"] == "accept" for t in r.traces), sum(t["d"] == "reject" for t in r.traces), sum(t["d"] == "any" for t in r.traces)))
-    cases = r.traces
+    # the certificates field as a SEQUENCE of 0..3 certificates in any order (spec/OCSPCerts.tla): property quantified over all positions
+    rm = ctx.tlc_must_hold("OCSPCerts_MC", cfg="OCSPCerts_M3.cfg", workers=2, timeout=600)
+    if not rm.traces:
+        raise vlib.Infra("OCSPCerts generator produced nothing")
+    ctx.log("OCSPCerts: %d configurations (%d with >= 2 certificates)" % (len(rm.traces), sum(len(t["certs"]) >= 2 for t in rm.traces)))
+    cases = r.traces + rm.traces
     if ctx.replay:
         import json
         d = json.load(open(ctx.replay))["violation"]["detail"]
         if isinstance(d, dict) and isinstance(d.get("case"), dict):
             k = d["case"]
-            cases = [t for t in cases if all(t.get(f) == k.get(f) for f in ("signer", "respId", "status", "issuerGiven", "issuerSelfSigned", "certArg", "region", "imp"))]
+            cases = [t for t in cases if t.get("multi") == k.get("multi") and (t.get("certs"), t.get("sigKey")) == (k.get("certs"), k.get("sigKey")) and all(t.get(f) == k.get(f) for f in ("signer", "respId", "status", "issuerGiven", "issuerSelfSigned", "certArg", "region", "imp"))]
     res = ctx.go_test("c48", "TestC48$", cases=cases, timeout=ctx.pick(600, 1800),
                       env={"VERIF_C48_ALLFLAVOURS": ctx.pick(0, 1), "VERIF_C48_EXPLORE": ctx.pick(20000, 400000)})
     ctx.absorb(res)
+    if not ctx.replay and not ctx.extra.get("c48_multi_cert_responses"):
+        raise vlib.Infra("vacuity guard: no multi-certificate response was exercised")
     ctx.notes.append("exploration: %s mutated/random inputs to ParseResponse/ParseResponseForCert/ParseRequest, %s panics" % (
         ctx.extra.get("c48_explore_inputs"), ctx.extra.get("c48_explore_panics")))
     ctx.exhaustive = True
